@@ -585,7 +585,9 @@ bool read_number(const char *in, Option<T> &out)
    char       *c;
    const auto val = std::strtol(in, &c, 10);
 
+   // the number has to fit into the value type of the option: no silent truncation
    if (  *c == 0
+      && static_cast<long>(static_cast<T>(val)) == val
       && out.validate(val))
    {
       out.m_val = static_cast<T>(val);
@@ -624,6 +626,12 @@ bool read_number(const char *in, Option<T> &out)
          return(false);
       }
       const auto rval = (invert ? -tval : tval);
+
+      if (static_cast<long>(static_cast<T>(rval)) != rval)
+      {
+         out.warnUnexpectedValue(in);
+         return(false);
+      }
 
       if (out.validate(rval))
       {
